@@ -426,6 +426,11 @@ theorem flatMap_nil_iff' {α} (l : List α) (f : α → List String) :
 theorem tag_nil (t : String) (rs : List String) : tag t rs = [] ↔ rs = [] := by
   simp [tag]
 
+/-- the count the handlers read is the count the rules read: an integer, or a double that holds
+    a whole number -/
+theorem stageCount_eq_spec (v : Val) : stageCount v = sliceCount v := by
+  cases v <;> rfl
+
 theorem stage_eq_spec (db : Db) (op : String) (opts : Val) (docs s : List Val)
     (hD : stageReasons op opts docs = []) (hs : specStage op opts docs = some s) :
     simpleStage db op opts docs = .ok s := by
@@ -469,8 +474,8 @@ theorem stage_eq_spec (db : Db) (op : String) (opts : Val) (docs s : List Val)
     | _ => simp at hs
   by_cases h3 : op = "$skip"
   · subst h3
-    simp only [specStage, stageReasons, show ¬ ("$skip" = "$match") by decide,
-      show ¬ ("$skip" = "$sort") by decide, if_false, if_true, decide_true, Bool.true_or] at hs hD
+    simp only [specStage, show ¬ ("$skip" = "$match") by decide,
+      show ¬ ("$skip" = "$sort") by decide, if_false, if_true] at hs
     show skipStage opts docs = .ok s
     cases hc : sliceCount opts with
     | none => simp [hc] at hs
@@ -479,22 +484,13 @@ theorem stage_eq_spec (db : Db) (op : String) (opts : Val) (docs s : List Val)
       split at hs
       · rename_i hk
         cases hs
-        cases opts with
-        | int n =>
-          simp only [sliceCount, Option.some.injEq] at hc
-          subst hc
-          rw [skipStage_int, if_pos hk]
-        | dbl m e =>
-          have : argRejected "$skip" (.dbl m e) = false := by
-            simp [argRejected, hc, Int.not_lt.mpr hk]
-          simp [this] at hD
-        | _ => simp [sliceCount] at hc
+        rw [skipStage_count opts k docs ((stageCount_eq_spec opts).trans hc), if_pos hk]
       · cases hs
   by_cases h4 : op = "$limit"
   · subst h4
-    simp only [specStage, stageReasons, show ¬ ("$limit" = "$match") by decide,
+    simp only [specStage, show ¬ ("$limit" = "$match") by decide,
       show ¬ ("$limit" = "$sort") by decide, show ¬ ("$limit" = "$skip") by decide,
-      if_false, if_true, decide_true, decide_false, Bool.or_true] at hs hD
+      if_false, if_true] at hs
     show limitStage opts docs = .ok s
     cases hc : sliceCount opts with
     | none => simp [hc] at hs
@@ -503,16 +499,7 @@ theorem stage_eq_spec (db : Db) (op : String) (opts : Val) (docs s : List Val)
       split at hs
       · rename_i hk
         cases hs
-        cases opts with
-        | int n =>
-          simp only [sliceCount, Option.some.injEq] at hc
-          subst hc
-          rw [limitStage_int, if_pos hk]
-        | dbl m e =>
-          have : argRejected "$limit" (.dbl m e) = false := by
-            simp [argRejected, hc, Int.not_le.mpr hk]
-          simp [this] at hD
-        | _ => simp [sliceCount] at hc
+        rw [limitStage_count opts k docs ((stageCount_eq_spec opts).trans hc), if_pos hk]
       · cases hs
   by_cases h5 : op = "$count"
   · subst h5
@@ -588,6 +575,24 @@ theorem pipeline_eq_spec (db : Db) : ∀ (p : List Val) (docs s : List Val),
         simp only [runPipeline, runStage_single, runOp_simple db op opts docs hne, h1]
         exact pipeline_eq_spec db rest out s hD.2 hs
 
+/-! ### `Collection.aggregate` normalises the datetimes of its pipeline -/
+
+theorem normPipeline_normal (stages : List Val) : ∀ st ∈ normPipeline stages, normalV st = true := by
+  intro st hst
+  have h := (MongoModel.Proofs.C18.allDatesL_iff Normal (patchList stages)).1
+    (MongoModel.Proofs.C18.patchList_normal stages) st hst
+  exact (MongoModel.Proofs.C18.allNormalB_iff st).2 h
+
+theorem normPipeline_idem (stages : List Val) :
+    normPipeline (normPipeline stages) = normPipeline stages :=
+  MongoModel.Proofs.C18.patchList_idem stages
+
+theorem normPipeline_fixes (stages : List Val) (h : ∀ st ∈ stages, normalV st = true) :
+    normPipeline stages = stages := by
+  apply MongoModel.Proofs.C18.patchList_fixes_normal
+  exact (MongoModel.Proofs.C18.allDatesL_iff Normal stages).2
+    (fun st hst => (MongoModel.Proofs.C18.allNormalB_iff st).1 (h st hst))
+
 /-! ### what MongoDB rejects, the code refuses -/
 
 /-- a `$limit` / `$skip` / `$count` argument MongoDB refuses makes the handler raise
@@ -598,20 +603,23 @@ theorem argRejected_opFail (db : Db) (op : String) (opts : Val) (docs : List Val
   by_cases h1 : op = "$limit"
   · subst h1
     show limitStage opts docs = .error .opFail
-    cases opts with
-    | int n =>
-      simp only [if_true, sliceCount, decide_eq_true_eq] at h
-      rw [limitStage_int, if_neg (Int.not_lt.mpr h)]
-    | _ => rfl
+    simp only [if_true] at h
+    cases hc : sliceCount opts with
+    | none => exact limitStage_nocount opts docs ((stageCount_eq_spec opts).trans hc)
+    | some n =>
+      simp only [hc, decide_eq_true_eq] at h
+      rw [limitStage_count opts n docs ((stageCount_eq_spec opts).trans hc),
+        if_neg (Int.not_lt.mpr h)]
   by_cases h2 : op = "$skip"
   · subst h2
     show skipStage opts docs = .error .opFail
-    cases opts with
-    | int n =>
-      simp only [show ¬ ("$skip" = "$limit") by decide, if_false, if_true, sliceCount,
-        decide_eq_true_eq] at h
-      rw [skipStage_int, if_neg (Int.not_le.mpr h)]
-    | _ => rfl
+    simp only [show ¬ ("$skip" = "$limit") by decide, if_false, if_true] at h
+    cases hc : sliceCount opts with
+    | none => exact skipStage_nocount opts docs ((stageCount_eq_spec opts).trans hc)
+    | some n =>
+      simp only [hc, decide_eq_true_eq] at h
+      rw [skipStage_count opts n docs ((stageCount_eq_spec opts).trans hc),
+        if_neg (Int.not_le.mpr h)]
   by_cases h3 : op = "$count"
   · subst h3
     show countStage opts docs = .error .opFail
@@ -675,37 +683,28 @@ theorem runPipeline_rejected (db : Db) : ∀ (p docs : List Val), p.any stageRej
         rw [he] at hr; cases hr
       · exact runPipeline_rejected db rest docs' h out
 
-/-- on every argument but a double the oracle of `$skip` / `$limit` speaks (documents or
-    rejected) and the case lies in the domain -/
+/-- on EVERY argument the oracle of `$skip` / `$limit` speaks (documents or rejected) and the
+    case lies in the domain -/
 theorem slice_spec_total (op : String) (o : Val) (docs : List Val)
-    (hop : op = "$skip" ∨ op = "$limit") (h : ∀ m e, o ≠ .dbl m e) :
+    (hop : op = "$skip" ∨ op = "$limit") :
     (∃ v, specStageV op o docs = some v) ∧ stageReasons op o docs = [] := by
-  have hne : ∀ n : Int, (0 ≤ n) ∨ (n < 0) := fun n => by omega
   rcases hop with rfl | rfl
-  · refine ⟨?_, ?_⟩
-    · cases o with
-      | int n =>
-        by_cases hn : 0 ≤ n
-        · exact ⟨.docs (docs.drop n.toNat), by
-            simp [specStageV, argRejected, specStage, sliceCount, hn, Int.not_lt.mpr hn]⟩
-        · exact ⟨.rejected, by simp [specStageV, argRejected, sliceCount, Int.not_le.mp hn]⟩
-      | dbl m e => exact absurd rfl (h m e)
-      | _ => exact ⟨.rejected, by simp [specStageV, argRejected, sliceCount]⟩
-    · cases o with
-      | dbl m e => exact absurd rfl (h m e)
-      | _ => simp [stageReasons]
-  · refine ⟨?_, ?_⟩
-    · cases o with
-      | int n =>
-        by_cases hn : 0 < n
-        · exact ⟨.docs (docs.take n.toNat), by
-            simp [specStageV, argRejected, specStage, sliceCount, hn, Int.not_le.mpr hn]⟩
-        · exact ⟨.rejected, by simp [specStageV, argRejected, sliceCount, Int.not_lt.mp hn]⟩
-      | dbl m e => exact absurd rfl (h m e)
-      | _ => exact ⟨.rejected, by simp [specStageV, argRejected, sliceCount]⟩
-    · cases o with
-      | dbl m e => exact absurd rfl (h m e)
-      | _ => simp [stageReasons]
+  · refine ⟨?_, by simp [stageReasons]⟩
+    cases hc : sliceCount o with
+    | none => exact ⟨.rejected, by simp [specStageV, argRejected, hc]⟩
+    | some n =>
+      by_cases hn : 0 ≤ n
+      · exact ⟨.docs (docs.drop n.toNat), by
+          simp [specStageV, argRejected, specStage, hc, hn, Int.not_lt.mpr hn]⟩
+      · exact ⟨.rejected, by simp [specStageV, argRejected, hc, Int.not_le.mp hn]⟩
+  · refine ⟨?_, by simp [stageReasons]⟩
+    cases hc : sliceCount o with
+    | none => exact ⟨.rejected, by simp [specStageV, argRejected, hc]⟩
+    | some n =>
+      by_cases hn : 0 < n
+      · exact ⟨.docs (docs.take n.toNat), by
+          simp [specStageV, argRejected, specStage, hc, hn, Int.not_le.mpr hn]⟩
+      · exact ⟨.rejected, by simp [specStageV, argRejected, hc, Int.not_lt.mp hn]⟩
 
 theorem stageV_eq_spec (db : Db) (op : String) (opts : Val) (docs : List Val) (v : Verdict)
     (hD : stageReasons op opts docs = []) (hs : specStageV op opts docs = some v) :
